@@ -1,12 +1,162 @@
-(* C04 -- placeholder until the expression theorems are integrated *)
-From Coq Require Import ZArith List String Bool.
-From Verif Require Import Value Expr ExprSpec ExprGuard.
+(* C04 -- Aggregation expressions evaluate to the value MongoDB defines.
+   Model: Model/Expr.v (eval, obs_add_field, obs_expr); specification: Spec/ExprSpec.v (seval,
+   spec_add_field, spec_expr); guard: Spec/ExprGuard.v (c04_reasons = 0).
+   The main theorems cover the whole expression language of the model (every operator, any depth,
+   any document): inside the guard, and unless the model leaves the library's answer open
+   (Err EUnmodelled), the $addFields observation and the {$expr: e} observation are the ones
+   the specification gives wherever it decides.  They follow from Proofs/C04Proofs.expr_agree:
+   for every environment of bound names, reasons vars doc e = 0 -> R (seval (lift vars) doc e)
+   (eval vars doc true e), with R s m: equal values / both missing / both an error (plain
+   equality of values; bson_eq in the statement below is its reflexive weakening).
+   Guard bits 256 .. 8192 were added by the proof; their counterexamples are in Refuted/C04.v,
+   examples of bits 1 .. 128 and a worked agreement in Proofs/C04Examples.v.
+   Vocabulary of the corollaries (Proofs/C04Corollaries.v), all about a model result r:
+   - nullish_m r : r = EV VNull \/ r = EMiss          (null or missing)
+   - number_m r  : r = EV v with v a number (int, double or bool as Python sees it)
+   - no_error r  : r is a value or missing (not an exception)
+   - cmp_of k    : the comparison of "$gt" / "$gte" / "$lt" / "$lte". *)
+From Coq Require Import ZArith List String Bool Ascii.
+From Verif Require Import Value PyEq BsonOrder Path Update Cursor Expr ExprSpec ExprGuard.
+From Verif Require Import C04Base C04Proofs C04Corollaries C04Examples.
 Import ListNotations.
 Open Scope Z_scope.
 Open Scope string_scope.
-Example C04_eval_example :
-  eval [] (VDoc [("a", VInt 2); ("l", VArr [VDoc [("x", VInt 1)]; VDoc []; VDoc [("x", VInt 5)]])]) true
-       (VDoc [("$add", VArr [VStr "$a"; VDoc [("$size", VStr "$l.x")]; VInt 1])])
-  = EV (VInt 5).
-Proof. vm_compute. reflexivity. Qed.
-Print Assumptions C04_eval_example.
+Open Scope list_scope.
+
+(* the hypotheses are satisfiable on a non-trivial expression *)
+Example C04_hypotheses_satisfiable :
+  c04_reasons ex_big ex_doc = 0 /\ obs_add_field "x" ex_big ex_doc <> Err EUnmodelled /\
+  obs_expr ex_big ex_doc <> Err EUnmodelled.
+Proof. vm_compute. repeat split; discriminate. Qed.
+
+(* 1. computed fields *)
+Theorem C04_expression : forall e doc,
+  c04_reasons e doc = 0 ->
+  obs_add_field "x" e doc <> Err EUnmodelled ->
+  match spec_add_field "x" e doc with
+  | OVal v => exists v', obs_add_field "x" e doc = Ok v' /\ bson_eq v v' = true
+  | OErr => exists er, obs_add_field "x" e doc = Err er
+  | OUndef => True
+  end.
+Proof. exact expression. Qed.
+Print Assumptions C04_expression.
+
+(* 2. {$expr: e} in query filters *)
+Theorem C04_expr_filter : forall e doc,
+  c04_reasons e doc = 0 ->
+  obs_expr e doc <> Err EUnmodelled ->
+  match spec_expr e doc with
+  | OVal b => obs_expr e doc = Ok b
+  | OErr => exists er, obs_expr e doc = Err er
+  | OUndef => True
+  end.
+Proof. exact expr_filter. Qed.
+Print Assumptions C04_expr_filter.
+
+(* the statement both follow from: any environment of bound names, plain equality of the results *)
+Theorem C04_expression_env : forall doc e vars,
+  reasons vars doc e = 0 -> R (seval (lift vars) doc e) (eval vars doc true e).
+Proof. exact expr_agree. Qed.
+Print Assumptions C04_expression_env.
+
+(* 3. the sentences of the property, on the model (no guard) *)
+(* null propagates through arithmetic *)
+Theorem C04_null_propagates_abs : forall vars doc e,
+  nullish_m (eval vars doc true e) -> eval vars doc true (VDoc [("$abs", e)]) = EV VNull.
+Proof. exact null_abs. Qed.
+Print Assumptions C04_null_propagates_abs.
+
+Theorem C04_null_propagates : forall vars doc k pre x post,
+  k = "$add" \/ k = "$multiply" ->
+  Forall (fun p => number_m (eval vars doc true p)) pre ->
+  nullish_m (eval vars doc true x) ->
+  Forall (fun q => no_error (eval vars doc true q)) post ->
+  eval vars doc true (VDoc [(k, VArr (pre ++ x :: post))]) = EV VNull.
+Proof. exact null_addmul. Qed.
+Print Assumptions C04_null_propagates.
+
+Theorem C04_null_propagates_subtract : forall vars doc a b,
+  no_error (eval vars doc true a) -> no_error (eval vars doc true b) ->
+  nullish_m (eval vars doc true a) \/ nullish_m (eval vars doc true b) ->
+  eval vars doc true (VDoc [("$subtract", VArr [a; b])]) = EV VNull.
+Proof. exact null_subtract. Qed.
+Print Assumptions C04_null_propagates_subtract.
+
+(* a missing field is omitted from computed fields, a present one is set *)
+Theorem C04_missing_omitted : forall f e doc fs, doc = VDoc fs ->
+  eval [] doc true e = EMiss -> obs_add_field f e doc = Ok doc.
+Proof. exact missing_omitted. Qed.
+Print Assumptions C04_missing_omitted.
+
+Theorem C04_present_set : forall f e fs v,
+  eval [] (VDoc fs) true e = EV v -> obs_add_field f e (VDoc fs) = Ok (VDoc (set_key f v fs)).
+Proof. exact present_set. Qed.
+Print Assumptions C04_present_set.
+
+(* a missing field is false in conditions *)
+Theorem C04_missing_false_in_conditions :
+  to_bool EMiss = Ok false /\
+  (forall vars doc c t f, eval vars doc true c = EMiss ->
+     eval vars doc true (VDoc [("$cond", VArr [c; t; f])]) = eval vars doc true f) /\
+  (forall vars doc c t f, eval vars doc true c = EMiss ->
+     eval vars doc true (VDoc [("$cond", VDoc [("if", c); ("then", t); ("else", f)])]) = eval vars doc true f) /\
+  (forall vars doc c, eval vars doc true c = EMiss ->
+     eval vars doc true (VDoc [("$not", VArr [c])]) = EV (VBool true)) /\
+  (forall vars doc xs c,
+     Forall (fun x => exists b, to_bool (eval vars doc true x) = Ok b) xs ->
+     In c xs -> eval vars doc true c = EMiss ->
+     eval vars doc true (VDoc [("$and", VArr xs)]) = EV (VBool false)) /\
+  (forall vars doc c, eval vars doc true c = EMiss ->
+     eval vars doc true (VDoc [("$or", VArr [c])]) = EV (VBool false)) /\
+  (forall vars doc c t d, eval vars doc true c = EMiss ->
+     eval vars doc true (VDoc [("$switch", VDoc [("branches", VArr [VDoc [("case", c); ("then", t)]]); ("default", d)])])
+     = eval vars doc true d).
+Proof.
+  exact (conj missing_false (conj cond_missing (conj cond_doc_missing (conj not_missing
+        (conj and_missing (conj or_missing_only switch_missing)))))).
+Qed.
+Print Assumptions C04_missing_false_in_conditions.
+
+(* $ifNull replaces null and missing *)
+Theorem C04_ifnull :
+  (forall vars doc a b v, eval vars doc true a = EV v -> v <> VNull ->
+     eval vars doc true (VDoc [("$ifNull", VArr [a; b])]) = EV v) /\
+  (forall vars doc a b, nullish_m (eval vars doc true a) ->
+     eval vars doc true (VDoc [("$ifNull", VArr [a; b])]) = eval vars doc true b).
+Proof. exact (conj ifnull_value ifnull_fallback). Qed.
+Print Assumptions C04_ifnull.
+
+(* find({$expr: e}) returns exactly the documents on which e is truthy *)
+Theorem C04_expr_truthy :
+  (forall e doc, obs_expr e doc = Ok true <-> exists v, eval [] doc true e = EV v /\ mongo_bool v = true) /\
+  (forall v, mongo_bool v = false <-> v = VBool false \/ v = VNull \/ v = VInt 0 \/ v = VDbl 0).
+Proof. exact (conj expr_truthy mongo_bool_false). Qed.
+Print Assumptions C04_expr_truthy.
+
+Theorem C04_literal : forall vars doc ign v, eval vars doc ign (VDoc [("$literal", v)]) = EV v.
+Proof. exact literal_value. Qed.
+Print Assumptions C04_literal.
+
+Theorem C04_root :
+  (forall vars doc ign, var_lookup "ROOT" (lift vars) = None -> eval vars doc ign (VStr "$$ROOT") = EV doc) /\
+  (forall vars doc ign, var_lookup "CURRENT" (lift vars) = None -> eval vars doc ign (VStr "$$CURRENT") = EV doc) /\
+  (forall doc ign, eval [] doc ign (VStr "$$ROOT") = EV doc /\ eval [] doc ign (VStr "$$CURRENT") = EV doc).
+Proof. exact (conj root_value (conj current_value root_value_top)). Qed.
+Print Assumptions C04_root.
+
+(* comparisons use the cross-type BSON order; a missing operand is below every present one *)
+Theorem C04_comparison_bson_order :
+  (forall vars doc k a b x y, In k ["$gt"; "$gte"; "$lt"; "$lte"] ->
+     eval vars doc true a = EV x -> eval vars doc true b = EV y ->
+     eval vars doc true (VDoc [(k, VArr [a; b])]) =
+     match bson_compare (cmp_of k) x y true with Ok r => EV (VBool r) | Err er => EE er end) /\
+  (forall op x y c, spec_cmp3 x y = Some c -> bson_compare op x y true = Ok (op_holds op c)) /\
+  (forall vars doc k a b, In k ["$gt"; "$gte"; "$lt"; "$lte"] ->
+     no_error (eval vars doc true a) -> no_error (eval vars doc true b) ->
+     eval vars doc true a = EMiss \/ eval vars doc true b = EMiss ->
+     eval vars doc true (VDoc [(k, VArr [a; b])]) =
+     EV (VBool (op_holds (cmp_of k)
+                  (Bool.compare (match eval vars doc true a with EV _ => true | _ => false end)
+                                (match eval vars doc true b with EV _ => true | _ => false end))))).
+Proof. exact (conj comparison_present (conj comparison_bson_order comparison_missing)). Qed.
+Print Assumptions C04_comparison_bson_order.
